@@ -32,7 +32,8 @@ def _rand_dir(rng):
 def gen_ref(rng, cls=None):
     """returns (pos, bonds, cls)"""
     cls = cls or rng.choice(["generic-tree", "generic-tree", "generic-cyclic", "collinear-chain",
-                             "axis-chain", "partly-collinear", "lattice", "two-atom", "one-atom"])
+                             "axis-chain", "tilted-axis-chain", "partly-collinear", "nearly-collinear",
+                             "lattice", "two-atom", "one-atom"])
     if cls == "one-atom":
         return [[rng.uniform(-2, 2) for _ in range(3)]], [], cls
     if cls == "two-atom":
@@ -41,11 +42,18 @@ def gen_ref(rng, cls=None):
         L = rng.uniform(0.1, 0.5)
         return [p0, [p0[k] + L * d[k] for k in range(3)]], [(0, 1)], cls
     n = rng.randint(3, 12) if rng.random() < 0.8 else rng.randint(13, 40)
-    if cls in ("collinear-chain", "axis-chain"):
+    if cls in ("collinear-chain", "axis-chain", "tilted-axis-chain"):
         n = rng.randint(3, 8)
         if cls == "axis-chain":
             d = [0, 0, 0]
             d[rng.randrange(3)] = rng.choice([-1, 1])
+        elif cls == "tilted-axis-chain":
+            # a line tilted off a coordinate axis by 2^-k (exactly representable, so the chain stays
+            # exactly collinear): exercises the x/y-vs-z split of the collinear fallback near its boundary
+            d = [0.0, 0.0, 0.0]
+            ax = rng.randrange(3)
+            d[ax] = float(rng.choice([-1, 1]))
+            d[(ax + rng.choice([1, 2])) % 3] = rng.choice([-1, 1]) * 2.0 ** -rng.randint(3, 40)
         else:
             d = rng.choice([(1, 1, 0), (1, 0, 1), (0, 1, 1), (1, 1, 1), (1, -1, 0), (-1, 1, 1),
                             tuple(rng.randint(-4, 4) for _ in range(3))])
@@ -76,6 +84,21 @@ def gen_ref(rng, cls=None):
             i, j = rng.sample(range(n), 2)
             if (i, j) not in bonds and (j, i) not in bonds:
                 bonds.append((i, j))
+    if cls == "nearly-collinear":
+        # one anchor bent off a straight line by a tiny angle 10^-U(1.5,4.5) rad (NOT collinear for the code:
+        # sin(angle) > 1e-6): the map must still be equivariant and local there
+        nb = neighbours(n, bonds)
+        anchors = [a for a in range(n) if len(nb[a]) >= 2]
+        a = rng.choice(anchors)
+        n1, n2 = sorted(nb[a])[:2]
+        d = _rand_dir(rng)
+        e = _rand_dir(rng)
+        ang = 10 ** -rng.uniform(1.5, 4.5)
+        base = pos[a]
+        L1, L2 = rng.uniform(0.1, 0.4), rng.uniform(0.1, 0.4)
+        sg = rng.choice([-1, 1])
+        pos[n2] = [base[k] + L2 * d[k] for k in range(3)]
+        pos[n1] = [base[k] + sg * L1 * (d[k] + ang * e[k]) for k in range(3)]
     if cls == "partly-collinear":
         # make one anchor exactly collinear with its two lowest-numbered neighbours
         nb = neighbours(n, bonds)
@@ -201,13 +224,31 @@ def run_impl(ctx, case):
     ref_before = ref.atoms_positions.copy()
     tgt_before = tgt.atoms_positions.copy()
     np.random.seed(case.get("seed", 0))
+    ident = case.get("ident", "fresh")
     with RandRecorder() as rec, np.errstate(all="ignore"):
         emap = ExchangeMap(ref, tgt, case["s"])
         nb = len(rec.draws)
         a0 = ref.copy()
         out0 = emap(a0).atoms_positions.copy()
+        # history: the map is also used on an unrelated conformation of the species before the call
+        # under test (what a system extrapolation does for every molecule)
+        other = ref.copy()
+        other.atoms_positions = other.atoms_positions[::-1] * 1.37 + np.array([1.7, -0.3, 0.9])
+        try:
+            emap(other)
+        except Exception:   # noqa: BLE001  (a degenerate scrambled conformation is not the case under test)
+            pass
         n0 = len(rec.draws)
-        arg = ref.copy()
+        if ident == "construction-object":
+            # the very object the map was built from, moved/deformed IN PLACE after construction and after
+            # the map has been used on another molecule
+            arg = ref
+            ref_before = arg_positions(case).copy()
+        elif ident == "reused-object":
+            # one Molecule object passed to consecutive calls and changed in place in between
+            arg = a0
+        else:
+            arg = ref.copy()
         arg.atoms_positions = arg_positions(case)
         arg_before = arg.atoms_positions.copy()
         res = emap(arg)
